@@ -120,4 +120,387 @@ theorem sum_upper (xs : List Int) (hi : Int) (h : ∀ x ∈ xs, x ≤ hi) : xs.s
     simp only [List.length_cons, List.sum_cons]
     push_cast; nlinarith
 
+
+/-! ### products of an endpoint with a length bound -/
+
+@[simp] theorem mul_int_int (a b : Int) : PyNum.mul (int a) (int b) = int (a * b) := rfl
+theorem mul_int_pinf_pos {a : Int} (h : 0 < a) : PyNum.mul (int a) pinf = pinf := by simp [PyNum.mul, h]
+theorem mul_int_pinf_neg {a : Int} (h : a < 0) : PyNum.mul (int a) pinf = ninf := by
+  have h' : ¬ 0 < a := by omega
+  simp [PyNum.mul, h, h']
+theorem mul_zero_pinf : PyNum.mul (int 0) pinf = nan := by simp [PyNum.mul]
+theorem mul_ninf_int_pos {d : Int} (h : 0 < d) : PyNum.mul ninf (int d) = ninf := by simp [PyNum.mul, h]
+theorem mul_pinf_int_pos {d : Int} (h : 0 < d) : PyNum.mul pinf (int d) = pinf := by simp [PyNum.mul, h]
+theorem mul_ninf_zero : PyNum.mul ninf (int 0) = nan := by simp [PyNum.mul]
+theorem min2_zero_nan : min2 (int 0) nan = int 0 := by simp [PyNum.min2, PyNum.lt]
+theorem max2_zero_nan : max2 (int 0) nan = int 0 := by simp [PyNum.max2, PyNum.lt]
+theorem min2_int_nan (a : Int) : min2 (int a) nan = int a := by simp [PyNum.min2, PyNum.lt]
+theorem max2_int_nan (a : Int) : max2 (int a) nan = int a := by simp [PyNum.max2, PyNum.lt]
+
+theorem sum_nil_of_length {xs : List Int} (h : (xs.length : Int) = 0) : xs.sum = 0 := by
+  have : xs = [] := List.eq_nil_of_length_eq_zero (by omega)
+  simp [this]
+
+/-! ### Sum -/
+
+/-- lower endpoint of `Sum`: `l` is the lower endpoint of the summand, `(int c, U)` the range of the length `n` -/
+theorem sum_lower_endpoint {l U : PyNum} {c n s : Int} (hl : l = ninf ∨ ∃ a, l = int a ∧ n * a ≤ s) (hc : 0 ≤ c) (hcn : c ≤ n)
+    (hU : PyNum.le (int n) U = true) (h0 : n = 0 → s = 0) :
+    PyNum.le (if PyNum.eq U (int 0) then int 0 else if PyNum.eq (int c) (int 0) then min2 (int 0) (PyNum.mul l U)
+      else min2 (PyNum.mul l (int c)) (PyNum.mul l U)) (int s) = true := by
+  cases U with
+  | int d =>
+    have hnd : n ≤ d := by simpa using hU
+    by_cases hd : d = 0
+    · subst hd; have : s = 0 := h0 (by omega)
+      simp [this]
+    · have hdpos : 0 < d := by omega
+      simp only [eq_int_int, hd, if_false]
+      rcases hl with rfl | ⟨a, rfl, ha⟩
+      · rw [mul_ninf_int_pos hdpos]
+        by_cases hc0 : c = 0
+        · simp [hc0, PyNum.min2, PyNum.lt]
+        · simp only [hc0, if_false]
+          rw [mul_ninf_int_pos (by omega)]
+          simp [PyNum.min2, PyNum.lt]
+      · simp only [mul_int_int]
+        by_cases hc0 : c = 0
+        · simp only [hc0, if_true]
+          rcases le_or_gt 0 a with h | h
+          · refine min2_le_left ?_
+            simp only [le_int_int]; nlinarith
+          · refine min2_le_right (nn_int _) ?_
+            simp only [le_int_int]; nlinarith
+        · simp only [hc0, if_false]
+          rcases le_or_gt 0 a with h | h
+          · refine min2_le_left ?_
+            simp only [le_int_int]; nlinarith
+          · refine min2_le_right (nn_int _) ?_
+            simp only [le_int_int]; nlinarith
+  | pinf =>
+    simp only [PyNum.eq, Bool.false_eq_true, if_false, eq_int_int]
+    rcases hl with rfl | ⟨a, rfl, ha⟩
+    · by_cases hc0 : c = 0
+      · simp [hc0, PyNum.mul, PyNum.min2, PyNum.lt]
+      · simp only [hc0, if_false]
+        rw [mul_ninf_int_pos (by omega)]
+        simp [PyNum.mul, PyNum.min2, PyNum.lt]
+    · by_cases hc0 : c = 0
+      · simp only [hc0, if_true]
+        rcases le_or_gt 0 a with h | h
+        · refine min2_le_left ?_
+          simp only [le_int_int]; nlinarith
+        · rw [mul_int_pinf_neg h]; exact min2_le_right (nn_int 0) (le_ninf_left (nn_int s))
+      · simp only [hc0, if_false, mul_int_int]
+        rcases le_or_gt 0 a with h | h
+        · refine min2_le_left ?_
+          simp only [le_int_int]; nlinarith
+        · rw [mul_int_pinf_neg h]; exact min2_le_right (a := int (a * c)) (nn_int _) (le_ninf_left (nn_int s))
+  | ninf => simp at hU
+  | nan => simp at hU
+
+theorem sum_upper_endpoint {h U : PyNum} {c n s : Int} (hh : h = pinf ∨ ∃ b, h = int b ∧ s ≤ n * b) (hc : 0 ≤ c) (hcn : c ≤ n)
+    (hU : PyNum.le (int n) U = true) (h0 : n = 0 → s = 0) :
+    PyNum.le (int s) (if PyNum.eq U (int 0) then int 0 else if PyNum.eq (int c) (int 0) then max2 (int 0) (PyNum.mul h U)
+      else max2 (PyNum.mul h (int c)) (PyNum.mul h U)) = true := by
+  cases U with
+  | int d =>
+    have hnd : n ≤ d := by simpa using hU
+    by_cases hd : d = 0
+    · subst hd; have : s = 0 := h0 (by omega)
+      simp [this]
+    · have hdpos : 0 < d := by omega
+      simp only [eq_int_int, hd, if_false]
+      rcases hh with rfl | ⟨b, rfl, hb⟩
+      · rw [mul_pinf_int_pos hdpos]
+        by_cases hc0 : c = 0
+        · simp [hc0, PyNum.max2, PyNum.lt]
+        · simp only [hc0, if_false]
+          rw [mul_pinf_int_pos (by omega)]
+          simp [PyNum.max2, PyNum.lt]
+      · simp only [mul_int_int]
+        by_cases hc0 : c = 0
+        · simp only [hc0, if_true]
+          rcases le_or_gt b 0 with h | h
+          · refine max2_ge_left ?_
+            simp only [le_int_int]; nlinarith
+          · refine max2_ge_right (nn_int _) ?_
+            simp only [le_int_int]; nlinarith
+        · simp only [hc0, if_false]
+          rcases le_or_gt b 0 with h | h
+          · refine max2_ge_left ?_
+            simp only [le_int_int]; nlinarith
+          · refine max2_ge_right (nn_int _) ?_
+            simp only [le_int_int]; nlinarith
+  | pinf =>
+    simp only [PyNum.eq, Bool.false_eq_true, if_false, eq_int_int]
+    rcases hh with rfl | ⟨b, rfl, hb⟩
+    · by_cases hc0 : c = 0
+      · simp [hc0, PyNum.mul, PyNum.max2, PyNum.lt]
+      · simp only [hc0, if_false]
+        rw [mul_pinf_int_pos (by omega)]
+        simp [PyNum.mul, PyNum.max2, PyNum.lt]
+    · by_cases hc0 : c = 0
+      · simp only [hc0, if_true]
+        rcases le_or_gt b 0 with h | h
+        · refine max2_ge_left ?_
+          simp only [le_int_int]; nlinarith
+        · rw [mul_int_pinf_pos h]; exact max2_ge_right (nn_int 0) (le_pinf_right (nn_int s))
+      · simp only [hc0, if_false, mul_int_int]
+        rcases le_or_gt b 0 with h | h
+        · refine max2_ge_left ?_
+          simp only [le_int_int]; nlinarith
+        · rw [mul_int_pinf_pos h]; exact max2_ge_right (a := int (b * c)) (nn_int _) (le_pinf_right (nn_int s))
+  | ninf => simp at hU
+  | nan => simp at hU
+
+theorem tfSum_sound {f len : Rng} (hf : Valid f) (hl : Valid len) (hidx : PyNum.le (int 0) len.1 = true) {xs : List Int}
+    (hn : Mem (xs.length : Int) len) (hx : ∀ x ∈ xs, Mem x f) : ∃ r', tfSum f len = some r' ∧ Mem xs.sum r' := by
+  obtain ⟨c, hc⟩ : ∃ c, len.1 = int c := by
+    rcases valid_cases hl with ⟨a, b, rfl, _⟩ | ⟨b, rfl⟩ | ⟨a, rfl⟩ | rfl <;> simp_all
+  have hc0 : 0 ≤ c := by rw [hc] at hidx; simpa using hidx
+  have hcn : c ≤ (xs.length : Int) := by have := hn.1; rw [hc] at this; simpa using this
+  have h0 : (xs.length : Int) = 0 → xs.sum = 0 := sum_nil_of_length
+  have hlo : f.1 = ninf ∨ ∃ a, f.1 = int a ∧ (xs.length : Int) * a ≤ xs.sum := by
+    rcases valid_cases hf with ⟨a, b, rfl, _⟩ | ⟨b, rfl⟩ | ⟨a, rfl⟩ | rfl
+    · exact Or.inr ⟨a, rfl, sum_lower xs a (fun x hx' => by have := hx x hx'; simp at this; omega)⟩
+    · exact Or.inl rfl
+    · exact Or.inr ⟨a, rfl, sum_lower xs a (fun x hx' => by have := hx x hx'; simpa using this)⟩
+    · exact Or.inl rfl
+  have hhi : f.2 = pinf ∨ ∃ b, f.2 = int b ∧ xs.sum ≤ (xs.length : Int) * b := by
+    rcases valid_cases hf with ⟨a, b, rfl, _⟩ | ⟨b, rfl⟩ | ⟨a, rfl⟩ | rfl
+    · exact Or.inr ⟨b, rfl, sum_upper xs b (fun x hx' => by have := hx x hx'; simp at this; omega)⟩
+    · exact Or.inr ⟨b, rfl, sum_upper xs b (fun x hx' => by have := hx x hx'; simpa using this)⟩
+    · exact Or.inl rfl
+    · exact Or.inl rfl
+  have L := sum_lower_endpoint hlo hc0 hcn hn.2 h0
+  have U := sum_upper_endpoint hhi hc0 hcn hn.2 h0
+  unfold tfSum
+  rw [hc]
+  by_cases e1 : PyNum.eq len.2 (int 0) = true
+  · refine ⟨_, by simp only [e1, if_true]; rfl, ?_⟩
+    simp only [e1, if_true] at L U
+    exact ⟨L, U⟩
+  · by_cases e2 : PyNum.eq (int c) (int 0) = true
+    · refine ⟨_, by simp only [e1, e2, if_true, if_false]; rfl, ?_⟩
+      simp only [e1, e2, if_true, if_false] at L U
+      exact ⟨L, U⟩
+    · refine ⟨_, by simp only [e1, e2, if_false]; rfl, ?_⟩
+      simp only [e1, e2, if_false] at L U
+      exact ⟨L, U⟩
+
+/-! ### RavelIndex (documented domain: `ia ≥ 0` indexes an axis, `nb ≥ 0` is a length) -/
+
+/-- the product of nonnegative values is bounded by the guarded product of their upper bounds -/
+theorem andMul_mono_nonneg {A U : PyNum} {p d : Int} (hp : 0 ≤ p) (hd : 0 ≤ d) (h1 : PyNum.le (int p) A = true) (h2 : PyNum.le (int d) U = true) :
+    PyNum.le (int (p * d)) (andMul A U) = true := by
+  cases A with
+  | int A =>
+    have hA : p ≤ A := by simpa using h1
+    cases U with
+    | int U => have hU : d ≤ U := by simpa using h2
+               simp only [andMul_int_int, le_int_int]; nlinarith
+    | pinf =>
+      rw [andMul_int_pinf]
+      by_cases hA0 : A = 0
+      · have : p = 0 := by omega
+        simp [hA0, this]
+      · have : 0 < A := by omega
+        simp [hA0, this]
+    | ninf => simp at h2
+    | nan => simp at h2
+  | pinf =>
+    cases U with
+    | int U =>
+      have hU : d ≤ U := by simpa using h2
+      rw [andMul_pinf_int]
+      by_cases hU0 : U = 0
+      · have : d = 0 := by omega
+        simp [hU0, this]
+      · have : 0 < U := by omega
+        simp [hU0, this]
+    | pinf => simp
+    | ninf => simp at h2
+    | nan => simp at h2
+  | ninf => simp at h1
+  | nan => simp at h1
+
+/-- either the lower endpoint is `nan` (then `_intbounds` raises) or the value is inside -/
+theorem tfRavelIndex_sound {ia ib nb : Rng} (h3 : Valid nb) (hidx : PyNum.le (int 0) nb.1 = true)
+    {a b n : Int} (ha : Mem a ia) (hb : Mem b ib) (hn : Mem n nb) (ha0 : 0 ≤ a) :
+    ∃ r', tfRavelIndex ia ib nb = some r' ∧ (r'.1 = nan ∨ Mem (a * n + b) r') := by
+  refine ⟨_, rfl, ?_⟩
+  obtain ⟨c, hc⟩ : ∃ c, nb.1 = int c := by
+    rcases valid_cases h3 with ⟨a, b, rfl, _⟩ | ⟨b, rfl⟩ | ⟨a, rfl⟩ | rfl <;> simp_all
+  have hc0 : 0 ≤ c := by rw [hc] at hidx; simpa using hidx
+  have hcn : c ≤ n := by have := hn.1; rw [hc] at this; simpa using this
+  have hup : PyNum.le (int (a * n + b)) (add (andMul ia.2 nb.2) ib.2) = true :=
+    int_le_add (andMul_mono_nonneg ha0 (by omega) ha.2 hn.2) hb.2
+  simp only [hc]
+  cases hia : ia.1 with
+  | int p =>
+    have hpa : p ≤ a := by have := ha.1; rw [hia] at this; simpa using this
+    right
+    refine ⟨add_le_int (by simp only [mul_int_int, le_int_int]; rcases le_or_gt 0 p with h | h <;> nlinarith) hb.1, hup⟩
+  | ninf =>
+    by_cases hc00 : c = 0
+    · left; subst hc00; simp [PyNum.mul, PyNum.add]
+    · right
+      refine ⟨add_le_int (x := a * n) (by rw [mul_ninf_int_pos (by omega)]; simp) hb.1, hup⟩
+  | pinf => have := ha.1; rw [hia] at this; simp at this
+  | nan => have := ha.1; rw [hia] at this; simp at this
+
+/-! ### Inflate -/
+
+theorem inflateMult_shape_sound (ds : List Int) (us : List PyNum) (h : ds.length = us.length)
+    (hd : ∀ p ∈ ds.zip us, 0 ≤ p.1 ∧ PyNum.le (int p.1) p.2 = true) (acc : PyNum) (p0 : Int) (hp0 : 0 ≤ p0)
+    (hacc : PyNum.le (int p0) acc = true) :
+    PyNum.le (int (p0 * ds.prod)) (us.foldl andMul acc) = true := by
+  induction ds generalizing us acc p0 with
+  | nil =>
+    cases us with
+    | nil => simpa using hacc
+    | cons _ _ => simp at h
+  | cons d ds ih =>
+    cases us with
+    | nil => simp at h
+    | cons u us =>
+      simp only [List.zip_cons_cons, List.mem_cons, List.length_cons, Nat.add_right_cancel_iff] at hd h
+      simp only [List.foldl_cons, List.prod_cons]
+      have h1 := hd (d, u) (Or.inl rfl)
+      rw [← Int.mul_assoc]
+      exact ih us h (fun p hp => hd p (Or.inr hp)) _ _ (Int.mul_nonneg hp0 h1.1) (andMul_mono_nonneg hp0 h1.1 hacc h1.2)
+
+/-- `xs` are the entries of `func` that are added into one dof; their number is at most the multiplicity `m` -/
+theorem tfInflate_sound {f : Rng} (hf : Valid f) (k : DofKind) {xs : List Int} (hx : ∀ x ∈ xs, Mem x f)
+    (hm : PyNum.le (int xs.length) (inflateMult k) = true) : ∃ r', tfInflate f k = some r' ∧ Mem xs.sum r' := by
+  refine ⟨_, rfl, ?_⟩
+  have hn0 : (0 : Int) ≤ xs.length := by omega
+  have h0 : (xs.length : Int) = 0 → xs.sum = 0 := sum_nil_of_length
+  have hmnn : NN (inflateMult k) := le_nn_right hm
+  obtain ⟨nl, nu⟩ := valid_nn hf
+  generalize inflateMult k = m at *
+  constructor
+  · -- lower: `min(lower and m and lower*m, 0)`
+    rcases valid_cases hf with ⟨a, b, rfl, _⟩ | ⟨b, rfl⟩ | ⟨a, rfl⟩ | rfl
+    all_goals first
+      | -- finite lower endpoint `a`
+        (have hlo := sum_lower xs a (fun x hx' => by have := hx x hx'; simp at this; omega)
+         rcases le_or_gt 0 a with h | h
+         · refine min2_le_right (andMul_nn (nn_int _) hmnn) ?_
+           simp only [le_int_int]; nlinarith
+         · refine min2_le_left ?_
+           cases m with
+           | int M => have : (xs.length : Int) ≤ M := by simpa using hm
+                      simp only [andMul_int_int, le_int_int]; nlinarith
+           | pinf => rw [andMul_int_pinf]; have h1 : ¬ a = 0 := by omega
+                     have h2 : ¬ 0 < a := by omega
+                     simp [h1, h2]
+           | ninf => simp at hm
+           | nan => simp at hm)
+      | -- lower endpoint `-inf`
+        (cases m with
+         | int M =>
+           have hM : (xs.length : Int) ≤ M := by simpa using hm
+           rw [andMul_ninf_int]
+           by_cases hM0 : M = 0
+           · have : xs.sum = 0 := h0 (by omega)
+             simp [hM0, this, PyNum.min2, PyNum.lt]
+           · have : 0 < M := by omega
+             simp [hM0, this, PyNum.min2, PyNum.lt]
+         | pinf => simp [PyNum.min2, PyNum.lt]
+         | ninf => simp at hm
+         | nan => simp at hm)
+  · rcases valid_cases hf with ⟨a, b, rfl, _⟩ | ⟨b, rfl⟩ | ⟨a, rfl⟩ | rfl
+    all_goals first
+      | (have hhi := sum_upper xs b (fun x hx' => by have := hx x hx'; simp at this; omega)
+         rcases le_or_gt b 0 with h | h
+         · refine max2_ge_right (andMul_nn (nn_int _) hmnn) ?_
+           simp only [le_int_int]; nlinarith
+         · refine max2_ge_left ?_
+           cases m with
+           | int M => have : (xs.length : Int) ≤ M := by simpa using hm
+                      simp only [andMul_int_int, le_int_int]; nlinarith
+           | pinf => rw [andMul_int_pinf]; have h1 : ¬ b = 0 := by omega
+                     simp [h1, h]
+           | ninf => simp at hm
+           | nan => simp at hm)
+      | (cases m with
+         | int M =>
+           have hM : (xs.length : Int) ≤ M := by simpa using hm
+           rw [andMul_pinf_int]
+           by_cases hM0 : M = 0
+           · have : xs.sum = 0 := h0 (by omega)
+             simp [hM0, this, PyNum.max2, PyNum.lt]
+           · have : 0 < M := by omega
+             simp [hM0, this, PyNum.max2, PyNum.lt]
+         | pinf => simp [PyNum.max2, PyNum.lt]
+         | ninf => simp at hm
+         | nan => simp at hm)
+
+/-! ### _SizesToOffsets -/
+
+/-- an offset is the sum `xs.sum` of the first `xs.length ≤ n` sizes, `n` being the number of sizes -/
+theorem tfSizesToOffsets_sound {sizes len : Rng} (hs : Valid sizes) (hs0 : PyNum.le (int 0) sizes.1 = true)
+    {xs : List Int} {n : Int} (hx : ∀ x ∈ xs, Mem x sizes) (hn : Mem n len) (hk : (xs.length : Int) ≤ n) :
+    ∃ r', tfSizesToOffsets sizes len = some r' ∧ Mem xs.sum r' := by
+  refine ⟨_, rfl, ?_⟩
+  have hk0 : (0 : Int) ≤ xs.length := by omega
+  have h0 : (xs.length : Int) = 0 → xs.sum = 0 := sum_nil_of_length
+  obtain ⟨c, hc⟩ : ∃ c, sizes.1 = int c := by
+    rcases valid_cases hs with ⟨a, b, rfl, _⟩ | ⟨b, rfl⟩ | ⟨a, rfl⟩ | rfl <;> simp_all
+  have hc0 : 0 ≤ c := by rw [hc] at hs0; simpa using hs0
+  have hxs0 : ∀ x ∈ xs, 0 ≤ x := fun x hx' => by
+    have := (hx x hx').1; rw [hc] at this; simp at this; omega
+  have hs_nonneg : 0 ≤ xs.sum := by
+    have := sum_lower xs 0 hxs0; simpa using this
+  constructor
+  · simpa using hs_nonneg
+  · show PyNum.le (int xs.sum) (if PyNum.eq len.2 (int 0) || PyNum.eq sizes.2 (int 0) then int 0 else PyNum.mul len.2 sizes.2) = true
+    have hnU := hn.2
+    cases hN : len.2 with
+    | int N =>
+      rw [hN] at hnU
+      have hnN : n ≤ N := by simpa using hnU
+      cases hM : sizes.2 with
+      | int M =>
+        have hhi := sum_upper xs M (fun x hx' => by have := (hx x hx').2; rw [hM] at this; simpa using this)
+        by_cases hN0 : N = 0
+        · have : xs.sum = 0 := h0 (by omega)
+          simp [hN0, this]
+        · by_cases hM0 : M = 0
+          · have : xs.sum ≤ 0 := by rw [hM0] at hhi; simpa using hhi
+            have : xs.sum = 0 := by omega
+            simp [hM0, this]
+          · have hMpos : 0 ≤ M := by
+              have := valid_le hs; rw [hc, hM] at this; simp at this; omega
+            have e : (PyNum.eq (int N) (int 0) || PyNum.eq (int M) (int 0)) = false := by simp [PyNum.eq, hN0, hM0]
+            rw [e]
+            simp only [Bool.false_eq_true, if_false, mul_int_int, le_int_int]
+            nlinarith
+      | pinf =>
+        by_cases hN0 : N = 0
+        · have : xs.sum = 0 := h0 (by omega)
+          simp [hN0, this]
+        · have : 0 < N := by omega
+          simp [hN0, PyNum.eq, mul_int_pinf_pos this]
+      | ninf => have := valid_le hs; rw [hc, hM] at this; simp at this
+      | nan => have := (valid_nn hs).2; rw [hM] at this; simp at this
+    | pinf =>
+      cases hM : sizes.2 with
+      | int M =>
+        have hhi := sum_upper xs M (fun x hx' => by have := (hx x hx').2; rw [hM] at this; simpa using this)
+        by_cases hM0 : M = 0
+        · have : xs.sum ≤ 0 := by rw [hM0] at hhi; simpa using hhi
+          have : xs.sum = 0 := by omega
+          simp [hM0, this, PyNum.eq]
+        · have hMpos : 0 < M := by
+            have := valid_le hs; rw [hc, hM] at this; simp at this; omega
+          simp [hM0, PyNum.eq, mul_pinf_int_pos hMpos]
+      | pinf => simp [PyNum.eq, PyNum.mul]
+      | ninf => have := valid_le hs; rw [hc, hM] at this; simp at this
+      | nan => have := (valid_nn hs).2; rw [hM] at this; simp at this
+    | ninf => rw [hN] at hnU; simp at hnU
+    | nan => rw [hN] at hnU; simp at hnU
+
 end NutilsVerif.C06
